@@ -8,6 +8,7 @@ integer; the real commit time is T0 + level * STEP), sets of commits travel as b
 from __future__ import annotations
 
 import hashlib
+import os
 import random
 import re
 import zlib
@@ -23,6 +24,12 @@ SITES = {
     "oct": "dulwich/graph.py:find_octopus_base",
     "ind": "dulwich/graph.py:independent",
     "walk": "dulwich/walk.py:Walker",
+    "pm": "dulwich/porcelain/__init__.py:merged_branches",
+    "pc": "dulwich/porcelain/__init__.py:branches_containing",
+    "pa": "dulwich/porcelain/__init__.py:is_ancestor",
+    "pb": "dulwich/porcelain/__init__.py:merge_base",
+    "pi": "dulwich/porcelain/__init__.py:independent_commits",
+    "pr": "dulwich/porcelain/__init__.py:rev_list",
 }
 
 
@@ -249,6 +256,7 @@ class Hist:
                 self.repo._add_graftpoints(grafts)
             self.par = tuple(eff)
         self.inv = {x: i + 1 for i, x in enumerate(ids)}
+        self.branches = []
         order = sorted(range(n), key=lambda i: ids[i])
         self.rank = [0] * n
         for pos, i in enumerate(order):
@@ -269,9 +277,106 @@ class Hist:
         return r
 
 
+# --------------------------------------------------------------------------- branches for the porcelain wrappers
+def use_disk_refs(h, refs_dir):
+    """Memory repositories get the files ref backend on a scratch directory (object store stays in
+    memory): DictRefsContainer.as_dict(base=b"refs/heads/") -- what the branch listings use --
+    returns nothing on this tree (BaseRefsContainer.subkeys mishandles the trailing slash; ref
+    backends are C16's subject), so the wrappers could not be exercised on it."""
+    from dulwich.refs import DiskRefsContainer
+    os.makedirs(os.path.join(refs_dir, "refs", "heads"), exist_ok=True)
+    h.repo.refs = DiskRefsContainer(refs_dir)
+
+
+def set_branches(h, commits):
+    """refs/heads/c<n> -> commit n for n in commits, nothing else under refs/heads."""
+    refs = h.repo.refs
+    want = {b"refs/heads/c%d" % c: h.ids[c - 1] for c in commits}
+    for k in list(refs.keys(base=b"refs/heads")):
+        full = b"refs/heads/" + k
+        if full not in want:
+            del refs[full]
+    for k, v in want.items():
+        refs[k] = v
+    h.branches = sorted(commits)
+
+
+def _bn(names):
+    out = []
+    for x in names:
+        x = x.rsplit(b"/", 1)[-1]
+        out.append(int(x[1:]) if x[:1] == b"c" and x[1:].isdigit() else -1)
+    return sorted(out)
+
+
 # --------------------------------------------------------------------------- queries on the real code
 def _exc(e):
     return f"{type(e).__name__}: {e}"[:200]
+
+
+def q_pm(h, head):
+    from dulwich import porcelain
+    q = {"k": "pm", "h": head, "s": list(h.branches), "m": 0, "g": []}
+    try:
+        h.repo.refs.set_symbolic_ref(b"HEAD", b"refs/heads/c%d" % head)
+        q["r"] = _bn(porcelain.merged_branches(h.repo))
+        q["nr"] = _bn(porcelain.no_merged_branches(h.repo))
+    except Exception as e:
+        q["r"], q["nr"], q["exc"] = [-1], [-1], _exc(e)
+    return q
+
+
+def q_pc(h, a):
+    from dulwich import porcelain
+    q = {"k": "pc", "a": a, "s": list(h.branches), "m": 0, "g": []}
+    try:
+        q["r"] = _bn(porcelain.branches_containing(h.repo, h.ids[a - 1].decode()))
+    except Exception as e:
+        q["r"], q["exc"] = [-1], _exc(e)
+    return q
+
+
+def q_pa(h, a, b):
+    from dulwich import porcelain
+    q = {"k": "pa", "a": a, "b": b, "m": 0, "g": []}
+    try:
+        q["r"] = [1 if porcelain.is_ancestor(h.repo, h.ids[a - 1], h.ids[b - 1]) else 0]
+    except Exception as e:
+        q["r"], q["exc"] = [2], _exc(e)
+    return q
+
+
+def q_pb(h, s, octopus=0, all_=1):
+    from dulwich import porcelain
+    q = {"k": "pb", "s": list(s), "oct": octopus, "all": all_, "m": 0, "g": []}
+    try:
+        q["r"] = h.num(porcelain.merge_base(h.repo, h.idl(s), all=bool(all_), octopus=bool(octopus)))
+    except Exception as e:
+        q["r"], q["exc"] = [-1], _exc(e)
+    return q
+
+
+def q_pi(h, s):
+    from dulwich import porcelain
+    q = {"k": "pi", "s": list(s), "m": 0, "g": []}
+    try:
+        q["r"] = h.num(porcelain.independent_commits(h.repo, h.idl(s)))
+    except Exception as e:
+        q["r"], q["exc"] = [-1], _exc(e)
+    return q
+
+
+def q_pr(h, i):
+    import io
+    from dulwich import porcelain
+    q = {"k": "pr", "i": list(i), "m": 0, "g": []}
+    try:
+        out = io.BytesIO()
+        porcelain.rev_list(h.repo, h.idl(i), outstream=out)
+        q["r"] = h.num(out.getvalue().split())
+    except Exception as e:
+        q["r"], q["exc"] = [-1], _exc(e)
+    return q
 
 
 def q_mb(h: Hist, a, d):
@@ -410,6 +515,35 @@ class Expect:
         if k == "ind":
             sm = mask_of(q["s"])
             return (-1 not in r and mask_of(r) == self.ind(sm) and len(set(r)) == len(r)), self.reach(sm)
+        if k == "pm":
+            sm = mask_of(q["s"])
+            rel = self.reach(sm | 1 << (q["h"] - 1))
+            e = sm & self.ancm[q["h"] - 1]
+            return (-1 not in q["r"] and -1 not in q["nr"] and mask_of(q["r"]) == e and mask_of(q["nr"]) == sm & ~e), rel
+        if k == "pc":
+            sm = mask_of(q["s"])
+            rel = self.reach(sm | 1 << (q["a"] - 1))
+            e = mask_of([c for c in q["s"] if self.ancm[c - 1] >> (q["a"] - 1) & 1])
+            return (-1 not in r and mask_of(r) == e), rel
+        if k == "pa":
+            rel = self.reach(mask_of([q["a"], q["b"]]))
+            e = 1 if self.ancm[q["b"] - 1] >> (q["a"] - 1) & 1 else 0
+            return r == [e], rel
+        if k == "pb":
+            sm = mask_of(q["s"])
+            rel = self.reach(sm)
+            e = self.oct(sm) if q["oct"] else self.mb(q["s"][0], mask_of(q["s"][1:]))
+            if -1 in r:
+                return False, rel
+            if q["all"]:
+                return mask_of(r) == e, rel
+            return (r == [] and e == 0) or (len(r) == 1 and e >> (r[0] - 1) & 1 == 1), rel
+        if k == "pi":
+            sm = mask_of(q["s"])
+            return (-1 not in r and mask_of(r) == self.ind(sm) and len(set(r)) == len(r)), self.reach(sm)
+        if k == "pr":
+            im = mask_of(q["i"])
+            return (-1 not in r and len(set(r)) == len(r) and mask_of(r) == self.reach(im)), self.reach(im)
         if k == "walk":
             im, em = mask_of(q["i"]), mask_of(q["e"])
             rel = self.reach(im | em)
@@ -455,7 +589,9 @@ def relevant(par, q):
     """Commits the query can see: everything reachable from the commits it names."""
     k = q["k"]
     roots = {"mb": lambda: [q["a"]] + q["d"], "ff": lambda: [q["a"], q["b"]], "oct": lambda: q["s"],
-             "ind": lambda: q["s"], "walk": lambda: q["i"] + q["e"]}[k]()
+             "ind": lambda: q["s"], "walk": lambda: q["i"] + q["e"], "pm": lambda: [q["h"]] + q["s"],
+             "pc": lambda: [q["a"]] + q["s"], "pa": lambda: [q["a"], q["b"]], "pb": lambda: q["s"],
+             "pi": lambda: q["s"], "pr": lambda: q["i"]}[k]()
     seen, todo = set(), list(roots)
     while todo:
         c = todo.pop()
@@ -485,6 +621,18 @@ def describe(par, ts, q):
         qs = f"find_octopus_base({rn(q['s'])})={rn(q['r'])}"
     elif k == "ind":
         qs = f"independent({rn(q['s'])})={rn(q['r'])}"
+    elif k == "pm":
+        qs = f"HEAD={ren[q['h']]},branches={rn(q['s'])}:merged_branches={rn(q['r'])},no_merged_branches={rn(q['nr'])}"
+    elif k == "pc":
+        qs = f"branches={rn(q['s'])}:branches_containing({ren[q['a']]})={rn(q['r'])}"
+    elif k == "pa":
+        qs = f"porcelain.is_ancestor({ren[q['a']]},{ren[q['b']]})={q['r'][0]}"
+    elif k == "pb":
+        qs = f"porcelain.merge_base({rn(q['s'])},all={q['all']},octopus={q['oct']})={rn(q['r'])}"
+    elif k == "pi":
+        qs = f"independent_commits({rn(q['s'])})={rn(q['r'])}"
+    elif k == "pr":
+        qs = f"porcelain.rev_list({rn(q['i'])})={rn(q['r'])}"
     else:
         opts = "".join(f",{o}={q[o]}" for o in ("topo", "rev", "since", "until", "max") if q[o])
         qs = f"walk(include={rn(q['i'])},exclude={rn(q['e'])}{opts})={rn(q['r'])}"
@@ -564,6 +712,22 @@ def run_dag(task):
                 kw = [dict(rev=1), dict(topo=1, rev=1), dict(maxe=rng.randint(1, n)), dict(since=rng.choice(lv)),
                       dict(until=rng.choice(lv)), dict(since=rng.choice(lv), until=rng.choice(lv), topo=rng.randrange(2))][o]
                 qs.append(q_walk(h, set_of(im), set_of(em), **kw))
+            # --- the porcelain wrappers: one branch per commit, HEAD at every commit in turn
+            if task.get("refs_dir") and rng.random() < plan.get("p_porcelain", 0.0):
+                use_disk_refs(h, os.path.join(task["refs_dir"], "refs-%d" % os.getpid()))
+                set_branches(h, range(1, n + 1))
+                for c in range(1, n + 1):
+                    qs.append(q_pm(h, c))
+                    qs.append(q_pc(h, c))
+                for _ in range(plan.get("n_porcelain", 2)):
+                    a, b = rng.randint(1, n), rng.randint(1, n)
+                    qs.append(q_pa(h, a, b))
+                    s_ = set_of(rng.choice(multi))
+                    rng.shuffle(s_)
+                    o = rng.randrange(4)
+                    qs.append(q_pb(h, s_, octopus=o & 1, all_=1 if o < 3 else 0))
+                    qs.append(q_pi(h, s_))
+                    qs.append(q_pr(h, set_of(rng.choice(allsets))))
             # --- pre-filter against the TLC table
             ship = []
             for q in qs:
